@@ -221,9 +221,11 @@ def run(ctx):
     allh = list(fam_a()) + list(fam_b()) + list(fam_c(ctx.tier)) + list(fam_t())
     items = []
     step = 40
-    for i in range(0, len(allh), step):
-        part = allh[i:i + step]
-        items.append((part[0][0], [h for _f, h in part], ctx.seed))
+    for famname in sorted(set(f for f, _h in allh)):
+        fh = [h for f, h in allh if f == famname]
+        st = 4 if famname == 'T' else step
+        for i in range(0, len(fh), st):
+            items.append((famname, fh[i:i + st], ctx.seed))
     m = merge(ctx.map(_worker, items))
     c = m['counters']
     fams = {}
